@@ -203,7 +203,7 @@ def oracle_files(ck, rng):
         for it2 in range(3 if ck.tier == "quick" else 20):
             n = int(rng.integers(1, 6))
             m = Molecules(rng.normal(size=(n, 3)) * (10 if it2 % 3 else 300), Rotation.random(n, random_state=int(rng.integers(0, 2**31))), features={"i": list(range(n))})
-            _ = m.to_dataframe(); _ = m.rotvec(); _ = m.matrix()
+            _ = m.to_dataframe(); _ = m.rotvec(); _ = m.matrix(); _ = (m.x, m.y, m.z); _ = m.quaternion(); _ = m.euler_angle()
             f0 = os.path.join(d, "s0.parquet"); m.to_file(f0)
             m.rotate_by(Rotation.random(random_state=int(rng.integers(0, 2**31))), copy=False)
             m.translate(rng.normal(size=3), copy=False)
@@ -224,6 +224,11 @@ def oracle_files(ck, rng):
                     tolp, tolr = (1e-6, 2e-6) if fmt != "csv" else (1e-5, 1e-4)
                     perr = float(np.abs(back.pos - m.pos).max()); rerr = float((back.rotator.inv() * m.rotator).magnitude().max())
                     fl = None if perr <= tolp and rerr <= tolr else f"positions off by {perr:.3g}, orientations by {rerr:.3g} rad"
+                    if fl is None:
+                        aerr = max(float(np.abs(np.asarray(getattr(back, ax_)) - np.asarray(getattr(m, ax_))).max()) for ax_ in "xyz")
+                        merr = float(np.abs(back.matrix() - m.matrix()).max())
+                        if aerr > 1e-3 or merr > 1e-3:
+                            fl = f"the axes / matrices the saved object reports differ from the reloaded ones by {max(aerr, merr):.3g}"
                     if fl is None and fmt != "csv" and not np.array_equal(np.asarray(back.pos), np.asarray(m.pos)):
                         fl = f"positions are not reloaded exactly (off by {perr:.3g}; stored as {m.to_dataframe()['z'].dtype}, held as {np.asarray(m.pos).dtype})"
                 except Exception as e:  # noqa
@@ -234,7 +239,8 @@ def oracle_files(ck, rng):
         # ---- zero molecules with feature columns: columns and schema survive every format ----
         empty_feats = pl.DataFrame({"i": pl.Series("i", [], dtype=pl.Int64), "f": pl.Series("f", [], dtype=pl.Float64), "s": pl.Series("s", [], dtype=pl.Utf8)})
         full = Molecules(np.arange(6, dtype=float).reshape(2, 3), features={"i": [1, 2], "f": [0.5, 1.5], "s": ["a", "b"]})
-        for how, m0 in (("constructed", Molecules(np.zeros((0, 3)), features=empty_feats)), ("head(0)", full.head(0)), ("filter-none", full.filter(pl.col("i") > 99))):
+        for how, m0 in (("constructed", Molecules(np.zeros((0, 3)), features=empty_feats)), ("head(0)", full.head(0)), ("filter-none", full.filter(pl.col("i") > 99)),
+                        ("empty slice", full.subset(slice(0, 0))), ("all-false mask", full.subset(np.zeros(2, dtype=bool)))):
             for fmt in ("df", "parquet", "csv"):
                 ck.oracle_count("empty_with_features", 1, 1)
                 try:
@@ -249,6 +255,13 @@ def oracle_files(ck, rng):
                     if cols != ["z", "y", "x", "zvec", "yvec", "xvec", "i", "f", "s"]: fl = f"data frame columns {cols}"
                     elif len(back) != 0: fl = f"{len(back)} molecules read back"
                     elif back.features.columns != ["i", "f", "s"]: fl = f"feature columns read back: {back.features.columns}"
+                    else:
+                        # the saved and the reloaded (empty) set answer every orientation accessor alike
+                        for acc_ in ("matrix", "rotvec", "quaternion", "euler_angle"):
+                            a_, b_ = np.asarray(getattr(m0, acc_)()), np.asarray(getattr(back, acc_)())
+                            if a_.shape != b_.shape:
+                                fl = f"{acc_}() has shape {a_.shape} before saving and {b_.shape} after reloading"
+                                break
                 except Exception as e:  # noqa
                     fl = f"raised {type(e).__name__}: {e}"
                 if fl:
